@@ -246,6 +246,51 @@ theorem encoding_checks_need_flags (env : Env)
     checkHashTypeEncoding env shf = none ∧ checkSignatureEncoding env sig = none ∧ checkPubKeyEncoding env pk = none := by
   simp [checkHashTypeEncoding, checkSignatureEncoding, checkPubKeyEncoding, h1, h2, h3]
 
+theorem hasFlag_or_self (a f : Nat) : hasFlag (a ||| f) f = true := by
+  simp only [hasFlag, beq_iff_eq]
+  apply Nat.eq_of_testBit_eq; intro i
+  simp only [Nat.testBit_and, Nat.testBit_or]
+  cases a.testBit i <;> cases f.testBit i <;> rfl
+
+theorem hasFlag_or_of (a f g : Nat) (h : hasFlag a g = true) : hasFlag (a ||| f) g = true := by
+  simp only [hasFlag, beq_iff_eq] at h ⊢
+  apply Nat.eq_of_testBit_eq; intro i
+  have := congrArg (·.testBit i) h
+  simp only [Nat.testBit_and] at this
+  simp only [Nat.testBit_and, Nat.testBit_or]
+  cases ha : a.testBit i <;> cases hg : g.testBit i <;> cases f.testBit i <;> simp_all
+
+theorem and_0x40_cases (n : Nat) : n &&& 0x40 = 0 ∨ n &&& 0x40 = 0x40 := by
+  have h6 : n &&& 0x40 = if n.testBit 6 then 0x40 else 0 := by
+    apply Nat.eq_of_testBit_eq; intro i
+    have h2 : (0x40 : Nat) = 2 ^ 6 := rfl
+    simp only [Nat.testBit_and]
+    by_cases hi : i = 6
+    · subst hi; cases n.testBit 6 <;> simp [h2, Nat.testBit_two_pow]
+    · have hz : (0x40 : Nat).testBit i = false := by
+        rw [h2, Nat.testBit_two_pow]; simp; omega
+      cases n.testBit 6 <;> simp [hz]
+  rw [h6]; split <;> simp
+
+/-- **Replay protection**: once FORKID signatures are enabled (which switches strict encoding on, `mkEnv`), a hash
+    type without the FORKID bit is a hard failure of the encoding check — for every hash-type byte, whatever the
+    other flags. -/
+theorem forkid_flag_refuses_legacy_hash_types (H : Crypto) (flags : Nat) (ctx : Option Ctx) (shf : Nat)
+    (hf : hasFlag flags fForkID = true) (h : shf &&& 0x40 ≠ 0x40) :
+    (checkHashTypeEncoding (mkEnv H flags ctx) shf).isSome = true := by
+  have hfl : (mkEnv H flags ctx).flags = flags ||| fStrictEnc := by simp only [mkEnv, hf, ↓reduceIte]
+  have hs : hasFlag (mkEnv H flags ctx).flags fStrictEnc = true := by rw [hfl]; exact hasFlag_or_self _ _
+  have hf' : hasFlag (mkEnv H flags ctx).flags fForkID = true := by rw [hfl]; exact hasFlag_or_of _ _ _ hf
+  have hbit : (shf &&& 0x7f) &&& 0x40 = shf &&& 0x40 := by rw [Nat.and_assoc]; rfl
+  have h0 : shf &&& 0x40 = 0 := (and_0x40_cases shf).resolve_right h
+  unfold checkHashTypeEncoding
+  simp only [hs, Bool.not_true, Bool.false_eq_true, ↓reduceIte, hf', h0, beq_self_eq_true, Bool.and_true]
+  cases hq : hasFlag (mkEnv H flags ctx).flags fBip143
+  · simp only [Bool.false_eq_true, ↓reduceIte, hbit, h0]
+    simp only [show ((0 : Nat) != 0x40) = true from rfl, ↓reduceIte, Bool.and_self]
+    split <;> rfl
+  · simp
+
 /-! ### non-vacuity -/
 example : walk (· == ·) [2, 5] [1, 2, 3, 5] = true ∧ walk (· == ·) [5, 2] [1, 2, 3, 5] = false := by decide
 
